@@ -327,8 +327,8 @@ impl Prop for Sampling {
 
     fn runs(&self, tier: Tier) -> u64 {
         match tier {
-            Tier::Quick => 40_000,
-            Tier::Thorough => 1_000_000,
+            Tier::Quick => 250_000,
+            Tier::Thorough => 5_000_000,
         }
     }
 
